@@ -52,6 +52,14 @@ pub struct Project {
     pub ns_functions: usize,
     /// (scope, symbol) for every function block: the scope holding its members
     pub fb_scopes: Vec<(usize, usize)>,
+    /// template-clone mode: files 1.. start with a clone of the first region of file 0 in
+    /// which only the top-level names differ (by equal-length names), so that every nested
+    /// declaration and use sits at the same byte offset in all files
+    pub clone_mode: bool,
+    /// a padding comment was inserted into a clone (offsets behind it are shifted)
+    pub clone_padded: bool,
+    /// dummy declarations appended at the end of the files (varies symbol-table sizes)
+    pub dummy_decls: usize,
 }
 
 struct Model {
@@ -135,6 +143,11 @@ struct FuncPlan {
     locals: Vec<usize>,
     ns: Option<usize>,
     file: usize,
+    /// template-clone mode: a textual clone (not emitted by the normal loops)
+    clone: bool,
+    /// template-clone mode: declared once, after the cloned region, and referenced from
+    /// the region of every file at the same offsets
+    shared: bool,
 }
 
 struct MethodPlan {
@@ -153,18 +166,21 @@ struct FbPlan {
     methods: Vec<MethodPlan>,
     ns: Option<usize>,
     file: usize,
+    clone: bool,
 }
 
 struct StructPlan {
     sym: usize,
     fields: Vec<usize>,
     file: usize,
+    clone: bool,
 }
 
 struct EnumPlan {
     sym: usize,
     values: Vec<usize>,
     file: usize,
+    clone: bool,
 }
 
 struct ProgPlan {
@@ -398,6 +414,44 @@ fn var_block(em: &mut Em, header: &str, vars: &[usize], ty: &str) {
     em.t("END_VAR\n");
 }
 
+/// A name of the same length as `name` that is not yet declared at the global level.
+fn equal_len_name(m: &Model, global: usize, name: &str, k: usize) -> String {
+    const SINGLE: &[&str] = &["q", "r", "s", "u", "w", "z", "j", "m", "p", "d", "e", "i", "o", "l"];
+    if name.len() == 1 {
+        for i in 0..SINGLE.len() {
+            let cand = SINGLE[(i + 3 * k) % SINGLE.len()];
+            if !m.has(global, cand) {
+                return cand.to_string();
+            }
+        }
+        return name.to_string();
+    }
+    let stem = &name[..name.len() - 1];
+    for d in 0..10 {
+        let cand = format!("{stem}{}", (k + d) % 10);
+        if !m.has(global, &cand) && !cand.eq_ignore_ascii_case(name) {
+            return cand;
+        }
+    }
+    name.to_string()
+}
+
+/// Clone a symbol into `scope`; top-level symbols get an equal-length new name.
+fn clone_sym(m: &mut Model, map: &mut Vec<Option<usize>>, global: usize, old: usize, scope: usize, k: usize) -> usize {
+    let name = if scope == global {
+        equal_len_name(m, global, &m.syms[old].name.clone(), k)
+    } else {
+        m.syms[old].name.clone()
+    };
+    let kind = m.syms[old].kind.clone();
+    let id = m.declare_named(scope, &name, &kind);
+    if map.len() <= old {
+        map.resize(old + 1, None);
+    }
+    map[old] = Some(id);
+    id
+}
+
 pub fn generate(r: &mut Reader) -> Project {
     let mut m = Model {
         syms: Vec::new(),
@@ -409,9 +463,13 @@ pub fn generate(r: &mut Reader) -> Project {
     let global = m.scope(None, "global");
     let nfiles = 1 + r.weighted(&[2, 3, 4]);
     let case_variants = r.chance(1, 3) && r.chance(1, 3);
+    // template-clone mode: about a third of the projects
+    let clone_mode = r.chance(1, 4);
+    let nclones = if clone_mode { 1 + r.weighted(&[3, 2]) } else { 0 };
+    let nfiles = if clone_mode { 1 + nclones } else { nfiles };
 
     // ---- plan -------------------------------------------------------------------
-    let ns_sym = if r.chance(2, 3) { Some(m.declare(r, global, TOP_POOL, "namespace")) } else { None };
+    let ns_sym = if r.chance(2, 3) && !clone_mode { Some(m.declare(r, global, TOP_POOL, "namespace")) } else { None };
     let ns_scope = ns_sym.map(|_| m.scope(Some(global), "namespace"));
 
     let mut enums = Vec::new();
@@ -419,10 +477,12 @@ pub fn generate(r: &mut Reader) -> Project {
         let sym = m.declare(r, global, TOP_POOL, "enum_type");
         let n = 2 + r.pick(2);
         let values = (0..n).map(|_| m.declare(r, global, ENUM_POOL, "enum_value")).collect();
+        let file = r.pick(nfiles);
         enums.push(EnumPlan {
             sym,
             values,
-            file: r.pick(nfiles),
+            file: if clone_mode { 0 } else { file },
+            clone: false,
         });
     }
     let mut structs = Vec::new();
@@ -431,17 +491,20 @@ pub fn generate(r: &mut Reader) -> Project {
         let sc = m.scope(None, "struct");
         let n = 1 + r.pick(3);
         let fields = (0..n).map(|_| m.declare(r, sc, VAR_POOL, "field")).collect();
+        let file = r.pick(nfiles);
         structs.push(StructPlan {
             sym,
             fields,
-            file: r.pick(nfiles),
+            file: if clone_mode { 0 } else { file },
+            clone: false,
         });
     }
 
     let ns_first_file = r.pick(nfiles);
     let mut ns_members = 0usize;
     let mut funcs = Vec::new();
-    for _ in 0..r.weighted(&[1, 3, 2]) {
+    let nfuncs = if clone_mode { 1 + r.weighted(&[3, 3]) } else { r.weighted(&[1, 3, 2]) };
+    for _ in 0..nfuncs {
         // open runtime finding: the result assignment of a FUNCTION declared in a NAMESPACE
         // writes a same-named variable of the caller / a stray global. Functions are kept
         // out of namespaces (counted), function blocks are not.
@@ -469,13 +532,16 @@ pub fn generate(r: &mut Reader) -> Project {
         } else {
             r.pick(nfiles)
         };
+        let shared = clone_mode && r.chance(1, 2);
         funcs.push(FuncPlan {
             sym,
             scope,
             inputs,
             locals,
             ns: if in_ns { ns_sym } else { None },
-            file,
+            file: if clone_mode { 0 } else { file },
+            clone: false,
+            shared,
         });
     }
 
@@ -517,8 +583,70 @@ pub fn generate(r: &mut Reader) -> Project {
             vars,
             methods,
             ns: if in_ns { ns_sym } else { None },
-            file,
+            file: if clone_mode { 0 } else { file },
+            clone: false,
         });
+    }
+
+    // template clones: the same plans again with equal-length top-level names
+    let mut clone_maps: Vec<Vec<Option<usize>>> = Vec::new();
+    for k in 1..=nclones {
+        let mut map: Vec<Option<usize>> = Vec::new();
+        for i in 0..enums.len() {
+            if enums[i].clone {
+                continue;
+            }
+            let sym = clone_sym(&mut m, &mut map, global, enums[i].sym, global, k);
+            let old_values = enums[i].values.clone();
+            let values = old_values.iter().map(|v| clone_sym(&mut m, &mut map, global, *v, global, k)).collect();
+            enums.push(EnumPlan { sym, values, file: k, clone: true });
+        }
+        for i in 0..structs.len() {
+            if structs[i].clone {
+                continue;
+            }
+            let sym = clone_sym(&mut m, &mut map, global, structs[i].sym, global, k);
+            let sc = m.scope(None, "struct");
+            let old_fields = structs[i].fields.clone();
+            let fields = old_fields.iter().map(|f| clone_sym(&mut m, &mut map, global, *f, sc, k)).collect();
+            structs.push(StructPlan { sym, fields, file: k, clone: true });
+        }
+        for i in 0..funcs.len() {
+            if funcs[i].clone || funcs[i].shared {
+                continue;
+            }
+            let sym = clone_sym(&mut m, &mut map, global, funcs[i].sym, global, k);
+            let scope = m.scope(Some(global), "function");
+            let (oi, ol) = (funcs[i].inputs.clone(), funcs[i].locals.clone());
+            let inputs = oi.iter().map(|v| clone_sym(&mut m, &mut map, global, *v, scope, k)).collect();
+            let locals = ol.iter().map(|v| clone_sym(&mut m, &mut map, global, *v, scope, k)).collect();
+            funcs.push(FuncPlan { sym, scope, inputs, locals, ns: None, file: k, clone: true, shared: false });
+        }
+        for i in 0..fbs.len() {
+            if fbs[i].clone {
+                continue;
+            }
+            let sym = clone_sym(&mut m, &mut map, global, fbs[i].sym, global, k);
+            let scope = m.scope(Some(global), "fb");
+            let (oi, oo, ov) = (fbs[i].inputs.clone(), fbs[i].outputs.clone(), fbs[i].vars.clone());
+            let inputs = oi.iter().map(|v| clone_sym(&mut m, &mut map, global, *v, scope, k)).collect();
+            let outputs = oo.iter().map(|v| clone_sym(&mut m, &mut map, global, *v, scope, k)).collect();
+            let vars = ov.iter().map(|v| clone_sym(&mut m, &mut map, global, *v, scope, k)).collect();
+            let mut methods = Vec::new();
+            for mi in 0..fbs[i].methods.len() {
+                let (osym, oin, olo) = {
+                    let me = &fbs[i].methods[mi];
+                    (me.sym, me.inputs.clone(), me.locals.clone())
+                };
+                let msym = clone_sym(&mut m, &mut map, global, osym, scope, k);
+                let mscope = m.scope(Some(scope), "method");
+                let minputs = oin.iter().map(|v| clone_sym(&mut m, &mut map, global, *v, mscope, k)).collect();
+                let mlocals = olo.iter().map(|v| clone_sym(&mut m, &mut map, global, *v, mscope, k)).collect();
+                methods.push(MethodPlan { sym: msym, scope: mscope, inputs: minputs, locals: mlocals });
+            }
+            fbs.push(FbPlan { sym, scope, inputs, outputs, vars, methods, ns: None, file: k, clone: true });
+        }
+        clone_maps.push(map);
     }
 
     // configuration: globals live in the configuration scope (not visible from POUs)
@@ -620,9 +748,18 @@ pub fn generate(r: &mut Reader) -> Project {
         structs: &structs,
     };
 
+    // template-clone mode: starts of the items of the region of file 0
+    let mut item_starts: Vec<usize> = Vec::new();
+
     // types
     for e in &enums {
+        if e.clone {
+            continue;
+        }
         em.cur = e.file;
+        if clone_mode {
+            item_starts.push(em.files[0].len());
+        }
         em.t("TYPE\n    ");
         em.decl(e.sym);
         em.t(" : (");
@@ -635,7 +772,13 @@ pub fn generate(r: &mut Reader) -> Project {
         em.t(");\nEND_TYPE\n\n");
     }
     for s in &structs {
+        if s.clone {
+            continue;
+        }
         em.cur = s.file;
+        if clone_mode {
+            item_starts.push(em.files[0].len());
+        }
         em.t("TYPE\n    ");
         em.decl(s.sym);
         em.t(" : STRUCT\n");
@@ -649,7 +792,8 @@ pub fn generate(r: &mut Reader) -> Project {
 
     // functions (function i may call functions j < i that are visible and not namespaced
     // differently)
-    for (fi, f) in funcs.iter().enumerate() {
+    let emit_function = |em: &mut Em, r: &mut Reader, fi: usize| {
+        let f = &funcs[fi];
         em.cur = f.file;
         if let Some(ns) = f.ns {
             em.t("NAMESPACE ");
@@ -659,8 +803,8 @@ pub fn generate(r: &mut Reader) -> Project {
         em.t("FUNCTION ");
         em.decl(f.sym);
         em.t(" : INT\n");
-        var_block(&mut em, "VAR_INPUT", &f.inputs, "INT");
-        var_block(&mut em, "VAR", &f.locals, "INT");
+        var_block(em, "VAR_INPUT", &f.inputs, "INT");
+        var_block(em, "VAR", &f.locals, "INT");
         let mut env = Env {
             scope: f.scope,
             ..Env::default()
@@ -676,23 +820,40 @@ pub fn generate(r: &mut Reader) -> Project {
             })
             .collect();
         for l in &f.locals {
-            g.assign(&mut em, r, &env, *l, "    ");
+            g.assign(em, r, &env, *l, "    ");
         }
         // the result variable: only if the function's own name is not shadowed inside
         em.t("    ");
         em.id(r, f.sym, "result_var");
         em.t(" := ");
-        g.expr(&mut em, r, &env, 0);
+        g.expr(em, r, &env, 0);
         em.t(";\nEND_FUNCTION\n");
         if f.ns.is_some() {
             em.t("END_NAMESPACE\n");
         }
         em.t("\n");
+    };
+
+    for fi in 0..funcs.len() {
+        let f = &funcs[fi];
+        if f.clone || (clone_mode && f.shared) {
+            continue;
+        }
+        if clone_mode {
+            item_starts.push(em.files[0].len());
+        }
+        emit_function(&mut em, r, fi);
     }
 
     // function blocks
     for fb in fbs.iter() {
+        if fb.clone {
+            continue;
+        }
         em.cur = fb.file;
+        if clone_mode {
+            item_starts.push(em.files[0].len());
+        }
         if let Some(ns) = fb.ns {
             em.t("NAMESPACE ");
             em.id(r, ns, "ns_decl");
@@ -757,6 +918,69 @@ pub fn generate(r: &mut Reader) -> Project {
             em.t("END_NAMESPACE\n");
         }
         em.t("\n");
+    }
+
+    // template clones: files 1.. start with the region of file 0, top-level names replaced
+    // by their equal-length clones; every other byte (and offset) is the same
+    let mut clone_padded = false;
+    if clone_mode {
+        let region_text = em.files[0].clone();
+        let mut region_occs: Vec<Occ> = em.occs.clone();
+        region_occs.sort_by_key(|o| o.start);
+        for (ki, map) in clone_maps.iter().enumerate() {
+            let k = ki + 1;
+            // optional padding comment in front of one item: offsets behind it shift
+            let pad_at = if !item_starts.is_empty() && r.chance(1, 3) {
+                clone_padded = true;
+                Some(item_starts[r.pick(item_starts.len())])
+            } else {
+                None
+            };
+            const PAD: &str = "(* template copy *)\n";
+            let mut text = String::with_capacity(region_text.len() + PAD.len());
+            let mut pos = 0usize;
+            let mut padded = false;
+            let mut new_occs: Vec<Occ> = Vec::new();
+            let push_plain = |text: &mut String, from: usize, to: usize, padded: &mut bool| {
+                if let Some(at) = pad_at {
+                    if !*padded && from <= at && at <= to {
+                        text.push_str(&region_text[from..at]);
+                        text.push_str(PAD);
+                        text.push_str(&region_text[at..to]);
+                        *padded = true;
+                        return;
+                    }
+                }
+                text.push_str(&region_text[from..to]);
+            };
+            for o in &region_occs {
+                push_plain(&mut text, pos, o.start, &mut padded);
+                let old_name = &m.syms[o.sym].name;
+                let spelled = &region_text[o.start..o.end];
+                let new_sym = map.get(o.sym).copied().flatten().unwrap_or(o.sym);
+                let new_name = &m.syms[new_sym].name;
+                let out = if spelled == old_name {
+                    new_name.clone()
+                } else if *spelled == old_name.to_ascii_uppercase() {
+                    new_name.to_ascii_uppercase()
+                } else {
+                    new_name.to_ascii_lowercase()
+                };
+                let start = text.len();
+                text.push_str(&out);
+                new_occs.push(Occ { file: k, start, end: start + out.len(), sym: new_sym, role: o.role.clone() });
+                pos = o.end;
+            }
+            push_plain(&mut text, pos, region_text.len(), &mut padded);
+            em.files[k] = text;
+            em.occs.extend(new_occs);
+        }
+        // shared functions: declared once, behind the region of file 0
+        for fi in 0..funcs.len() {
+            if funcs[fi].shared && !funcs[fi].clone {
+                emit_function(&mut em, r, fi);
+            }
+        }
     }
 
     // configuration
@@ -989,6 +1213,25 @@ pub fn generate(r: &mut Reader) -> Project {
         em.t("END_PROGRAM\n\n");
     }
 
+    // dummy declarations at the END of the files: they vary the sizes of the symbol tables
+    // (hash orders) without moving anything else
+    let mut dummy_decls = 0usize;
+    if clone_mode || r.chance(1, 6) {
+        for f in 0..nfiles {
+            let n = r.pick(41);
+            if n == 0 {
+                continue;
+            }
+            dummy_decls += n;
+            em.cur = f;
+            em.t(&format!("FUNCTION_BLOCK Dmy{f}\nVAR\n"));
+            for i in 0..n {
+                em.t(&format!("    pad{i} : INT;\n"));
+            }
+            em.t("END_VAR\nEND_FUNCTION_BLOCK\n");
+        }
+    }
+
     let Em { files, occs, .. } = em;
     Project {
         files,
@@ -996,6 +1239,9 @@ pub fn generate(r: &mut Reader) -> Project {
         avoided_ns_functions: m.avoided_ns_functions,
         ns_functions: m.ns_functions,
         fb_scopes: fbs.iter().map(|f| (f.scope, f.sym)).collect(),
+        clone_mode,
+        clone_padded,
+        dummy_decls,
         syms: m.syms,
         scopes: m.scopes,
         occs,
